@@ -270,3 +270,417 @@ Proof.
       apply in_map_iff. exists (n, c). split; [reflexivity|]. unfold create_loop, run_loop. exact Hc. }
     destruct (g_no_dup_error_spec g Hdup _ Hin) as [D1 D2]. cbn in D1, D2. destruct W2; congruence.
 Qed.
+
+(* ------------------------------------------------------------------ final errors come from an attempt *)
+Section FinalSrc.
+  Context {St It : Type}.
+  Variable try : St -> It -> St * option N.
+  Variable is_final : N -> bool.
+  Lemma round_final_src : forall todo s x c, In (x, c) (r_final (round try is_final s todo)) ->
+    In x todo /\ exists s0 s0', try s0 x = (s0', Some c).
+  Proof.
+    induction todo as [|y t IH]; intros s x c H; cbn [round] in H; [contradiction|].
+    destruct (try s y) as [s' [c'|]] eqn:E.
+    - destruct (is_final c'); cbn [r_final] in H.
+      + destruct H as [H|H]; [inversion H; subst; split; [now left|eauto]|]. destruct (IH _ _ _ H) as [A B]. split; [now right|exact B].
+      + destruct (IH _ _ _ H) as [A B]. split; [now right|exact B].
+    - cbn [r_final] in H. destruct (IH _ _ _ H) as [A B]. split; [now right|exact B].
+  Qed.
+  Lemma round_retry_in : forall todo s x c, In (x, c) (r_retry (round try is_final s todo)) -> In x todo.
+  Proof.
+    induction todo as [|y t IH]; intros s x c H; cbn [round] in H; [contradiction|].
+    destruct (try s y) as [s' [c'|]].
+    - destruct (is_final c'); cbn [r_retry] in H; [right; eapply IH; eauto|].
+      destruct H as [H|H]; [inversion H; now left|right; eapply IH; eauto].
+    - cbn [r_retry] in H. right; eapply IH; eauto.
+  Qed.
+  Lemma loop_final_src : forall f todo s fin x c, In (x, c) (r_final (loop try is_final f s todo fin)) ->
+    In (x, c) fin \/ (In x todo /\ exists s0 s0', try s0 x = (s0', Some c)).
+  Proof.
+    induction f as [|f IH]; intros todo s fin x c H; cbn [loop] in H; [now left|].
+    destruct (r_prog (round try is_final s todo)).
+    - destruct (IH _ _ _ _ _ H) as [H'|[H1 H2]].
+      + apply in_app_or in H'. destruct H' as [H'|H']; [now left|right]. eapply round_final_src; eauto.
+      + right. split; [|exact H2]. apply in_map_iff in H1. destruct H1 as [[y c'] [E1 E2]]. cbn in E1. subst y. eapply round_retry_in; eauto.
+    - cbn [r_final] in H. apply in_app_or in H. destruct H as [H|H]; [now left|right]. eapply round_final_src; eauto.
+  Qed.
+End FinalSrc.
+
+Lemma exec_op_cat_plain cx s o s' c : exec_op cx s o = (s', Some c) ->
+  match o with OFail c0 => c0 <> cat_recursive | ONeed _ _ _ _ r => r = false | OAllOf _ _ r => r = false | _ => True end ->
+  c <> cat_recursive.
+Proof.
+  intros H Hp. destruct o; cbn [exec_op] in H.
+  - inversion H; subst. exact Hp.
+  - destruct (lookup (s_cbr s) t); [discriminate|]. subst recur. inversion H. discriminate.
+  - subst recur. destruct (lookup (s_cbr s) t) as [[e|]|]; [|inversion H; discriminate|inversion H; discriminate].
+    destruct (mem t (s_done s)); [discriminate|]. inversion H. discriminate.
+  - discriminate.
+  - destruct (has (s_cbn s) c0); inversion H. discriminate.
+  - destruct (lookup (s_cbn s) c0) as [[|v']|]; [inversion H; discriminate| |discriminate].
+    destruct (v' =? v); inversion H. discriminate.
+Qed.
+
+Lemma exec_cat_plain cx : forall p s s' c, forallb instr_plain p = true -> exec cx s p = (s', Some c) -> c <> cat_recursive.
+Proof.
+  induction p as [|i p IH]; intros s s' c Hp H; cbn [exec] in H; [discriminate|].
+  cbn [forallb] in Hp. apply andb_true_iff in Hp. destruct Hp as [Hi Hp].
+  destruct (exec_op cx s (i_op i)) as [s1 [c1|]] eqn:E; [|eapply IH; eauto].
+  inversion H; subst. unfold instr_plain in Hi. apply andb_true_iff in Hi. destruct Hi as [Ho Hi].
+  apply negb_true_iff in Ho. apply N.eqb_neq in Ho.
+  assert (Hc1 : c1 <> cat_recursive).
+  { eapply exec_op_cat_plain; [exact E|]. destruct (i_op i); auto.
+    - apply negb_true_iff in Hi. now apply N.eqb_neq in Hi.
+    - now apply negb_true_iff in Hi.
+    - now apply negb_true_iff in Hi. }
+  destruct (i_ovr i =? 0) eqn:E0; cbn [orb].
+  - exact Hc1.
+  - destruct (c1 =? cat_recursive) eqn:E1; [apply N.eqb_eq in E1; contradiction|exact Ho].
+Qed.
+
+(* ------------------------------------------------------------------ what the create phase leaves for the process phase *)
+Definition push_owner (cx : ctx) (k : nat) : option ref :=
+  match c_top cx with TModel k' => if Nat.eqb k k' then Some (c_ref cx) else None | _ => None end.
+
+Lemma exec_pushed cx : forall p s s', exec cx s p = (s', None) ->
+  forall i c k e, In i p -> i_op i = OMintModel c (Some k) -> nth_error (c_ents cx) k = Some e ->
+  In (mkQ (push_owner cx k) (e_name e) e) (s_queue s').
+Proof.
+  induction p as [|i0 p IH]; intros s s' H i c k e Hi Ho Hn; [contradiction|]. cbn [exec] in H.
+  destruct (exec_op cx s (i_op i0)) as [s1 [c1|]] eqn:E; [discriminate|]. destruct Hi as [<-|Hi]; [|eapply IH; eauto].
+  destruct (exec_frame _ _ _ _ _ H) as (_ & _ & _ & _ & FQ). apply FQ.
+  rewrite Ho in E. cbn [exec_op] in E. destruct (has (s_cbn s) c); [discriminate|]. inversion E; subst. cbn [s_queue].
+  apply in_or_app. right. unfold push_entry. rewrite Hn. left. reflexivity.
+Qed.
+
+(* new queue items of a component: owned by nobody, or by the component itself with the entry its top-level model has *)
+Lemma exec_op_new_items cx s o s' r : exec_op cx s o = (s', r) ->
+  forall q, In q (s_queue s') -> In q (s_queue s) \/ q_owner q = None \/
+    (q_owner q = Some (c_ref cx) /\
+     ((exists k e, c_top cx = TModel k /\ nth_error (c_ents cx) k = Some e /\ q_entry q = e) \/ exists t, c_top cx = TWrap t)).
+Proof.
+  intros H q Hq. destruct o; cbn [exec_op] in H.
+  - inversion H; subst. now left.
+  - destruct (lookup (s_cbr s) t) as [pl|]; [|inversion H; subst; now left]. inversion H; subst. cbn [s_queue] in Hq.
+    apply in_app_or in Hq. destruct Hq as [Hq|Hq]; [now left|right].
+    destruct k, pl; cbn in Hq; try contradiction. destruct Hq as [<-|[]]. cbn [q_owner]. unfold wrap_owner.
+    destruct (c_top cx) eqn:Et; [now left| |now left]. right. split; [reflexivity|]. right. eauto.
+  - destruct (lookup (s_cbr s) t) as [[e|]|]; try (inversion H; subst; now left).
+    destruct (mem t (s_done s)); inversion H; subst; now left.
+  - inversion H; subst. now left.
+  - destruct (has (s_cbn s) c); [inversion H; subst; now left|]. inversion H; subst. cbn [s_queue] in Hq.
+    apply in_app_or in Hq. destruct Hq as [Hq|Hq]; [now left|right]. unfold push_entry in Hq.
+    destruct q0 as [k|]; [|contradiction]. destruct (nth_error (c_ents cx) k) as [e|] eqn:En; [|contradiction].
+    destruct Hq as [<-|[]]. cbn [q_owner q_entry]. destruct (c_top cx) as [k'| |] eqn:Et; [|now left|now left].
+    destruct (Nat.eqb k k') eqn:Ek; [|now left]. apply Nat.eqb_eq in Ek. subst k'. right. split; [reflexivity|]. left. eauto.
+  - destruct (lookup (s_cbn s) c) as [[|v']|]; [inversion H; subst; now left| |inversion H; subst; now left].
+    destruct (v' =? v); inversion H; subst; now left.
+Qed.
+
+Lemma exec_new_items cx : forall p s s' r, exec cx s p = (s', r) ->
+  forall q, In q (s_queue s') -> In q (s_queue s) \/ q_owner q = None \/
+    (q_owner q = Some (c_ref cx) /\
+     ((exists k e, c_top cx = TModel k /\ nth_error (c_ents cx) k = Some e /\ q_entry q = e) \/ exists t, c_top cx = TWrap t)).
+Proof.
+  induction p as [|i p IH]; intros s s' r H q Hq; cbn [exec] in H.
+  - inversion H; subst. now left.
+  - destruct (exec_op cx s (i_op i)) as [s1 [c1|]] eqn:E.
+    + inversion H; subst. eapply exec_op_new_items; eauto.
+    + destruct (IH _ _ _ H q Hq) as [A|A]; [|now right]. eapply exec_op_new_items; eauto.
+Qed.
+
+(* invariant of the create phase about owners and payloads of top-level models *)
+Definition inv_own (g : graph) (s : st) : Prop :=
+  (forall q r, In q (s_queue s) -> q_owner q = Some r ->
+     forall m k e, In m g -> n_ref m = r -> n_top m = TModel k -> nth_error (n_entries m) k = Some e -> q_entry q = e) /\
+  (forall m k e, In m g -> has (s_cbr s) (n_ref m) = true -> n_top m = TModel k -> nth_error (n_entries m) k = Some e ->
+     lookup (s_cbr s) (n_ref m) = Some (PModel e) /\ In (mkQ (Some (n_ref m)) (e_name e) e) (s_queue s)) /\
+  (forall m, In m g -> has (s_cbr s) (n_ref m) = true ->
+     (n_top m = TOther \/ exists k, n_top m = TModel k /\ nth_error (n_entries m) k = None) -> lookup (s_cbr s) (n_ref m) = Some POther).
+
+Lemma create_own g : wf_graph g = true -> inv_own g (r_st (create_loop g)).
+Proof.
+  intro Hwf. destruct (wf_graph_spec _ Hwf) as [Hnd Hwn]. unfold create_loop, run_loop.
+  pose proof (loop_inv create_try no_final (inv_own g) (fun _ _ => True) (fun n => In n g)) as L.
+  assert (P_step : forall s x s' r, In x g -> inv_own g s -> create_try s x = (s', r) -> inv_own g s').
+  { intros s x s' r Hx (I1 & I2 & I3) Ht. unfold create_try in Ht.
+    destruct (exec (ctx_of x) s (n_create x)) as [s1 [c|]] eqn:E; inversion Ht; subst; clear Ht.
+    - unfold revert. split; [|split]; cbn; auto.
+    - destruct (exec_frame _ _ _ _ _ E) as (F1 & F2 & F3 & F4 & F5).
+      split; [|split]; cbn [s_queue s_cbr].
+      + intros q r Hq Ho m k e Hm Hr Htop Hnth.
+        destruct (exec_new_items _ _ _ _ _ E q Hq) as [A|[A|[A B]]].
+        * eapply I1; eauto.
+        * congruence.
+        * cbn [ctx_of c_ref c_top c_ents] in A, B. rewrite A in Ho. inversion Ho; subst r.
+          assert (m = x) by (eapply ref_inj; eauto). subst m.
+          destruct B as [[k' [e' (B1 & B2 & B3)]]|[t B]]; [|congruence]. rewrite B1 in Htop. inversion Htop; subst k'. congruence.
+      + intros m k e Hm Hh Htop Hnth. rewrite has_cons in Hh. rewrite lookup_cons.
+        destruct (N.eqb_spec (n_ref x) (n_ref m)) as [Eq|Ne].
+        * assert (m = x) by (eapply ref_inj; eauto). subst m. split.
+          -- unfold node_payload. rewrite Htop, Hnth. reflexivity.
+          -- destruct (wf_node_pushed x e (Hwn x Hx) (nth_error_In _ _ Hnth)) as [i [j (Hi & Ho & Hj)]].
+             pose proof (exec_pushed _ _ _ _ E i _ _ _ Hi Ho Hj) as Hq.
+             (* the entry is pushed under its own index: the index found by wf is an index of e, but the owner needs k *)
+             unfold wf_node in Hwn. pose proof (Hwn x Hx) as W. apply andb_true_iff in W. destruct W as [W _].
+             apply andb_true_iff in W. destruct W as [W _].
+             destruct (entries_pushed_spec _ _ _ W _ _ Hnth) as [i2 [Hi2 Ho2]]. rewrite Nat.add_0_l in Ho2.
+             pose proof (exec_pushed _ _ _ _ E i2 _ _ _ Hi2 Ho2 Hnth) as Hq2.
+             unfold push_owner in Hq2. cbn [ctx_of c_top c_ref] in Hq2. rewrite Htop, Nat.eqb_refl in Hq2. exact Hq2.
+        * cbn [orb] in Hh. rewrite F1 in Hh. rewrite F1. destruct (I2 m k e Hm Hh Htop Hnth) as [A B]. split; [exact A|now apply F5].
+      + intros m Hm Hh Htop. rewrite has_cons in Hh. rewrite lookup_cons.
+        destruct (N.eqb_spec (n_ref x) (n_ref m)) as [Eq|Ne].
+        * assert (m = x) by (eapply ref_inj; eauto). subst m. unfold node_payload.
+          destruct Htop as [Htop|[k [Htop Hnone]]]; rewrite Htop; [reflexivity|rewrite Hnone; reflexivity].
+        * cbn [orb] in Hh. rewrite F1 in Hh. rewrite F1. apply I3; auto. }
+  specialize (L P_step (fun _ _ _ _ _ _ _ _ _ => I) (fun _ _ _ _ _ _ => I) (S (length (create_todo g))) (create_todo g) st0 []
+                (Nat.lt_succ_diag_r _) (create_todo_in g)).
+  assert (H0 : inv_own g st0).
+  { split; [|split]; cbn; intros; try contradiction; unfold has in *; cbn in *; discriminate. }
+  specialize (L H0). cbn zeta in L. tauto.
+Qed.
+
+(* ------------------------------------------------------------------ process phase: least fixed point *)
+Fixpoint Pn (g : graph) (k : nat) (e : entry) : Prop :=
+  match k with
+  | O => False
+  | S k' => static_ok_p (e_prog e) = true /\
+            (forall t, In t (need_ts (e_prog e)) -> exists m, In m g /\ n_ref m = t /\ C g m) /\
+            (forall t, In t (allof_ts (e_prog e)) ->
+               exists m j e', In m g /\ n_ref m = t /\ C g m /\ n_top m = TModel j /\ nth_error (n_entries m) j = Some e' /\ Pn g k' e')
+  end.
+Definition P (g : graph) (e : entry) : Prop := exists k, Pn g k e.
+
+Lemma Pn_S g : forall k e, Pn g k e -> Pn g (S k) e.
+Proof.
+  induction k as [|k IH]; intros e H; [destruct H|]. destruct H as (A & B & D).
+  change (static_ok_p (e_prog e) = true /\
+          (forall t, In t (need_ts (e_prog e)) -> exists m, In m g /\ n_ref m = t /\ C g m) /\
+          (forall t, In t (allof_ts (e_prog e)) ->
+             exists m j e', In m g /\ n_ref m = t /\ C g m /\ n_top m = TModel j /\ nth_error (n_entries m) j = Some e' /\ Pn g (S k) e')).
+  split; [exact A|]. split; [exact B|]. intros t Ht. destruct (D t Ht) as [m [j [e' (M1 & M2 & M3 & M4 & M5 & M6)]]].
+  exists m, j, e'. split; [exact M1|]. split; [exact M2|]. split; [exact M3|]. split; [exact M4|]. split; [exact M5|]. apply IH, M6.
+Qed.
+Lemma Pn_le g k k' e : (k <= k')%nat -> Pn g k e -> Pn g k' e.
+Proof. intro Hle. induction Hle as [|k' Hle IH]; [auto|]. intro Hc. apply Pn_S. auto. Qed.
+
+Lemma P_intro g e : static_ok_p (e_prog e) = true ->
+  (forall t, In t (need_ts (e_prog e)) -> exists m, In m g /\ n_ref m = t /\ C g m) ->
+  (forall t, In t (allof_ts (e_prog e)) ->
+     exists m j e', In m g /\ n_ref m = t /\ C g m /\ n_top m = TModel j /\ nth_error (n_entries m) j = Some e' /\ P g e') -> P g e.
+Proof.
+  intros H1 H2 H3.
+  destruct (finite_rank (fun k t => exists m j e', In m g /\ n_ref m = t /\ C g m /\ n_top m = TModel j /\
+                                      nth_error (n_entries m) j = Some e' /\ Pn g k e') (allof_ts (e_prog e))) as [K HK].
+  - intros k k' t Hle [m [j [e' (A1 & A2 & A3 & A4 & A5 & A6)]]]. exists m, j, e'.
+    split; [exact A1|]. split; [exact A2|]. split; [exact A3|]. split; [exact A4|]. split; [exact A5|]. eapply Pn_le; eauto.
+  - intros t Ht. destruct (H3 t Ht) as [m [j [e' (A1 & A2 & A3 & A4 & A5 & [k A6])]]]. exists k, m, j, e'.
+    split; [exact A1|]. split; [exact A2|]. split; [exact A3|]. split; [exact A4|]. split; [exact A5|exact A6].
+  - exists (S K). cbn [Pn]. split; [exact H1|]. split; [exact H2|exact HK].
+Qed.
+
+Lemma exec_success_static_p cx : forall p s s', exec cx s p = (s', None) -> static_ok_p p = true.
+Proof.
+  induction p as [|i p IH]; intros s s' H; [reflexivity|]. cbn [exec] in H.
+  destruct (exec_op cx s (i_op i)) as [s1 [c|]] eqn:E; [discriminate|].
+  pose proof (IH _ _ H) as Hp. unfold static_ok_p in *. cbn [forallb]. rewrite Hp, andb_true_r.
+  destruct (i_op i); try reflexivity. cbn [exec_op] in E. discriminate.
+Qed.
+
+Lemma exec_allof_ok cx : forall p s s', exec cx s p = (s', None) ->
+  forall t, In t (allof_ts p) -> (exists e, lookup (s_cbr s) t = Some (PModel e)) /\ mem t (s_done s) = true.
+Proof.
+  induction p as [|i p IH]; intros s s' H t Ht; [contradiction|]. cbn [exec] in H.
+  destruct (exec_op cx s (i_op i)) as [s1 [c|]] eqn:E; [discriminate|].
+  destruct (exec_op_frame _ _ _ _ _ E) as (F1 & F2 & _).
+  unfold allof_ts in Ht. cbn [flat_map] in Ht. apply in_app_or in Ht. destruct Ht as [Ht|Ht].
+  - destruct (i_op i); try contradiction. destruct Ht as [<-|[]]. cbn [exec_op] in E.
+    destruct (lookup (s_cbr s) t0) as [[e|]|]; try discriminate. destruct (mem t0 (s_done s)); [|discriminate]. eauto.
+  - destruct (IH _ _ H t Ht) as [A B]. rewrite F1, F2 in *. auto.
+Qed.
+
+Lemma find_node_spec g r n : NoDup (map n_ref g) -> In n g -> n_ref n = r -> find_node g r = Some n.
+Proof.
+  induction g as [|a g IH]; cbn [map find_node]; intros Hnd Hn E; [contradiction|].
+  inversion Hnd as [|? ? Hni Hnd']; subst. destruct Hn as [->|Hn].
+  - now rewrite N.eqb_refl.
+  - destruct (N.eqb_spec (n_ref a) (n_ref n)) as [Eq|Ne]; [|now apply IH].
+    exfalso. apply Hni. rewrite Eq. now apply in_map.
+Qed.
+
+Lemma g_allof_direct_spec g : g_allof_direct g = true ->
+  forall n p i t rs rc, In n g -> prog_of n p -> In i p -> i_op i = OAllOf t rs rc ->
+  forall m, find_node g t = Some m -> is_twrap m = false.
+Proof.
+  unfold g_allof_direct, all_progs. intros H n p i t rs rc Hn Hp Hi Ho m Hf. rewrite forallb_forall in H.
+  assert (Hin : In p (flat_map (fun n => n_create n :: map e_prog (n_entries n)) g)).
+  { apply in_flat_map. exists n. split; [exact Hn|]. destruct Hp as [->|[e [He ->]]]; [now left|right; now apply in_map]. }
+  specialize (H _ Hin). rewrite forallb_forall in H. specialize (H _ Hi). rewrite Ho, Hf in H. now apply negb_true_iff in H.
+Qed.
+
+Lemma allof_ts_in p t : In t (allof_ts p) -> exists i rs rc, In i p /\ i_op i = OAllOf t rs rc.
+Proof.
+  unfold allof_ts. intro H. apply in_flat_map in H. destruct H as [i [Hi Ht]].
+  destruct (i_op i) eqn:E; try contradiction. destruct Ht as [<-|[]]. eauto.
+Qed.
+
+Section Process.
+  Variable g : graph.
+  Hypothesis Hwf : wf_graph g = true.
+  Hypothesis Hdir : g_allof_direct g = true.
+  Let s1 := r_st (create_loop g).
+
+  (* a successful process_model establishes P for the model *)
+  Lemma proc_success_P s q sx :
+    s_cbr s = s_cbr s1 -> AE g (q_entry q) ->
+    (forall t, In t (s_done s) -> forall m j e', In m g -> n_ref m = t -> n_top m = TModel j -> nth_error (n_entries m) j = Some e' -> P g e') ->
+    exec ctx_proc s (e_prog (q_entry q)) = (sx, None) -> P g (q_entry q).
+  Proof.
+    intros Hc [nq [Hnq Heq]] Hdone E.
+    destruct (wf_graph_spec _ Hwf) as [Hnd Hwn].
+    destruct (create_sound g Hnd) as [_ CS]. fold s1 in CS.
+    destruct (create_own g Hwf) as (O1 & O2 & O3). fold s1 in O1, O2, O3.
+    apply P_intro.
+    - eapply exec_success_static_p; eauto.
+    - intros t Ht. destruct (need_ts_edges _ _ Ht) as [k [rs He]].
+      destruct (exec_done _ _ _ _ E) as (D1 & _). destruct (D1 _ _ _ He) as [Hh _].
+      destruct (exec_frame _ _ _ _ _ E) as (F1 & _). rewrite F1, Hc in Hh.
+      destruct (CS t Hh) as [m (M1 & M2 & M3 & M4)]. exists m. auto.
+    - intros t Ht. destruct (exec_allof_ok _ _ _ _ E t Ht) as [[e' Hl] Hm]. rewrite Hc in Hl.
+      assert (Hh : has (s_cbr s1) t = true) by (apply has_lookup; eauto).
+      destruct (CS t Hh) as [m (M1 & M2 & M3 & M4)].
+      destruct (allof_ts_in _ _ Ht) as [i [rs [rc [Hi Ho]]]].
+      assert (Htw : is_twrap m = false).
+      { apply (g_allof_direct_spec g Hdir nq (e_prog (q_entry q)) i t rs rc Hnq
+                 (or_intror (ex_intro _ (q_entry q) (conj Heq eq_refl))) Hi Ho m).
+        now apply find_node_spec. }
+      subst t. destruct (n_top m) as [j|t'|] eqn:Etop.
+      + destruct (nth_error (n_entries m) j) as [e2|] eqn:En.
+        * exists m, j, e2. repeat (split; [auto|]). apply mem_in in Hm. eapply Hdone; eauto.
+        * rewrite (O3 m M1 Hh) in Hl; [discriminate|]. right. eauto.
+      + unfold is_twrap in Htw. rewrite Etop in Htw. discriminate.
+      + rewrite (O3 m M1 Hh) in Hl; [discriminate|now left].
+  Qed.
+
+  Definition inv_P (s : st) : Prop :=
+    s_cbr s = s_cbr s1 /\ s_queue s = s_queue s1 /\
+    (forall t, In t (s_done s) -> forall m j e', In m g -> n_ref m = t -> n_top m = TModel j -> nth_error (n_entries m) j = Some e' -> P g e').
+  Definition Qp (q : qitem) (s : st) : Prop :=
+    P g (q_entry q) /\ prog_done [] (e_prog (q_entry q)) s /\ forall r, q_owner q = Some r -> In r (s_done s).
+
+  Lemma process_lfp :
+    let pl := process_loop s1 in
+    inv_P (r_st pl) /\
+    (forall q, In q (s_queue s1) -> Qp q (r_st pl) \/ (exists c, In (q, c) (r_retry pl)) \/ (exists c, In (q, c) (r_final pl))).
+  Proof.
+    cbn zeta. unfold process_loop, run_loop.
+    destruct (wf_graph_spec _ Hwf) as [Hnd Hwn].
+    destruct (provenance g) as [[Q1 Q2] _]. fold s1 in Q1, Q2.
+    destruct (create_own g Hwf) as (O1 & O2 & O3). fold s1 in O1, O2, O3.
+    pose proof (loop_inv proc_try is_rec inv_P Qp (fun q => In q (s_queue s1))) as L.
+    assert (P_step : forall s x s' r, In x (s_queue s1) -> inv_P s -> proc_try s x = (s', r) -> inv_P s').
+    { intros s x s' r Hx (I1 & I2 & I3) Ht. destruct (proc_try_frame _ _ _ _ Ht) as (A1 & A2 & A3).
+      split; [congruence|]. split; [congruence|]. unfold proc_try in Ht.
+      destruct (exec ctx_proc s (e_prog (q_entry x))) as [sx [c|]] eqn:E; inversion Ht; subst; clear Ht; cbn [s_done revert].
+      - exact I3.
+      - destruct (exec_frame _ _ _ _ _ E) as (_ & F2 & _). rewrite F2.
+        destruct (q_owner x) as [r0|] eqn:Eo; [|exact I3].
+        intros t [<-|Ht]; [|now apply I3]. intros m j e' Hm Hr Htop Hnth.
+        rewrite <- (O1 x r0 Hx Eo m j e' Hm Hr Htop Hnth). eapply proc_success_P; eauto. }
+    assert (Q_step : forall s x y s' r, In y (s_queue s1) -> inv_P s -> proc_try s y = (s', r) -> Qp x s -> Qp x s').
+    { intros s x y s' r _ _ Ht (A & B & D). destruct (proc_try_frame _ _ _ _ Ht) as (A1 & A2 & A3).
+      split; [exact A|]. split; [eapply prog_done_ext; eauto|]. intros r0 Hr0. specialize (D r0 Hr0).
+      unfold proc_try in Ht. destruct (exec ctx_proc s (e_prog (q_entry y))) as [sx [c|]] eqn:E; inversion Ht; subst; cbn [s_done revert]; [exact D|].
+      destruct (exec_frame _ _ _ _ _ E) as (_ & F2 & _). rewrite F2. destruct (q_owner y); [now right|exact D]. }
+    assert (Q_succ : forall s x s', In x (s_queue s1) -> inv_P s -> proc_try s x = (s', None) -> Qp x s').
+    { intros s x s' Hx (I1 & I2 & I3) Ht. split; [|split].
+      - unfold proc_try in Ht. destruct (exec ctx_proc s (e_prog (q_entry x))) as [sx [c|]] eqn:E; [discriminate|].
+        eapply proc_success_P; eauto.
+      - exact (proc_try_succ _ _ _ Ht).
+      - intros r0 Hr0. unfold proc_try in Ht. destruct (exec ctx_proc s (e_prog (q_entry x))) as [sx [c|]] eqn:E; [discriminate|].
+        inversion Ht; subst. cbn [s_done]. rewrite Hr0. now left. }
+    specialize (L P_step Q_step Q_succ (S (length (s_queue s1))) (s_queue s1) s1 [] (Nat.lt_succ_diag_r _) (fun x Hx => Hx)).
+    assert (H0 : inv_P s1).
+    { split; [reflexivity|]. split; [reflexivity|]. destruct (create_sound g Hnd) as [Hd _]. fold s1 in Hd. rewrite Hd. intros t []. }
+    specialize (L H0). cbn zeta in L. destruct L as (L1 & _ & L3 & _). split; [exact L1|exact L3].
+  Qed.
+End Process.
+
+Lemma static_ok_p_in p i : static_ok_p p = true -> In i p -> forall c0, i_op i <> OFail c0.
+Proof.
+  unfold static_ok_p. rewrite forallb_forall. intros H Hi c0 E. specialize (H _ Hi). rewrite E in H. discriminate.
+Qed.
+
+Lemma allof_ts_intro p i t rs rc : In i p -> i_op i = OAllOf t rs rc -> In t (allof_ts p).
+Proof. intros Hi E. unfold allof_ts. apply in_flat_map. exists i. split; [exact Hi|]. rewrite E. now left. Qed.
+
+Section ProcessComplete.
+  Variable g : graph.
+  Hypothesis Hwf : wf_graph g = true.
+  Hypothesis Hdir : g_allof_direct g = true.
+  Hypothesis Hpl : g_plain g = true.
+  Hypothesis Hdup : g_no_dup_error g = true.
+  Let s1 := r_st (create_loop g).
+  Let pl := process_loop s1.
+  Let s2 := r_st pl.
+
+  (* completeness: a model whose derivation exists is processed: it is in neither error list *)
+  Lemma process_complete : forall k q, In q (s_queue s1) -> Pn g k (q_entry q) ->
+    (forall c, ~ In (q, c) (r_retry pl)) /\ (forall c, ~ In (q, c) (r_final pl)).
+  Proof.
+    destruct (wf_graph_spec _ Hwf) as [Hnd Hwn].
+    destruct (process_lfp g Hwf Hdir) as [(IP1 & IP2 & IP3) ACC]. cbn zeta in IP1, IP2, IP3, ACC. fold s1 pl s2 in IP1, IP2, IP3, ACC.
+    destruct (provenance g) as [[Q1 Q2] _]. fold s1 in Q1, Q2.
+    destruct (create_own g Hwf) as (O1 & O2 & O3). fold s1 in O1, O2, O3.
+    induction k as [|k IH]; intros q Hq Hk; [destruct Hk|]. destruct Hk as (Hst & Hne & Hal).
+    destruct (Q1 q Hq) as [nq [Hnq Heq]].
+    assert (Hplain : forallb instr_plain (e_prog (q_entry q)) = true).
+    { apply forallb_forall. intros i Hi. eapply (g_plain_spec g Hpl nq); eauto. right. eauto. }
+    split.
+    - intros c Hc. unfold pl, process_loop, run_loop in Hc.
+      destruct (loop_stuck proc_try is_rec same_know same_know_refl same_know_trans proc_try_fail_know
+                  _ _ s1 [] (Nat.lt_succ_diag_r (length (s_queue s1))) q c Hc) as [s0 [s0' [Kn Ht]]].
+      fold (run_loop proc_try is_rec s1 (s_queue s1)) in Kn. fold (process_loop s1) in Kn. fold pl s2 in Kn.
+      destruct Kn as (K1 & K2 & K3 & K4).
+      unfold proc_try in Ht. destruct (exec ctx_proc s0 (e_prog (q_entry q))) as [sx [cx|]] eqn:E; [|discriminate].
+      inversion Ht; subst cx. clear Ht.
+      destruct (exec_fails_why _ _ _ _ _ E) as [i [Hi W]].
+      destruct W as [[c0 W]|[[kk [t [rs [nm [rc [W1 W2]]]]]]|[[t [rs [rc [W1 W2]]]]|[W1 W2]]]].
+      + exact (static_ok_p_in _ _ Hst Hi _ W).
+      + destruct (Hne t (need_ts_in _ _ _ _ _ _ _ Hi W1)) as [m (M1 & M2 & M3)].
+        pose proof (create_complete g Hnd Hpl Hdup m M3) as Hc1. fold s1 in Hc1.
+        rewrite M2, <- IP1, <- K1 in Hc1. apply has_lookup in Hc1. destruct Hc1 as [v Hv]. congruence.
+      + destruct (Hal t (allof_ts_intro _ _ _ _ _ Hi W1)) as [m [j [e' (M1 & M2 & M3 & M4 & M5 & M6)]]].
+        pose proof (create_complete g Hnd Hpl Hdup m M3) as Hc1. fold s1 in Hc1.
+        destruct (O2 m j e' M1 Hc1 M4 M5) as [Hl Hitem]. rewrite M2 in Hl.
+        rewrite K1, IP1 in W2. destruct W2 as [W2|[W2|W2]]; [congruence|congruence|].
+        (* the parent's own model is processed by the induction hypothesis *)
+        destruct (IH _ Hitem M6) as [NR NF].
+        destruct (ACC _ Hitem) as [(_ & _ & Hown)|[[c1 Hx]|[c1 Hx]]]; [|exfalso; eapply NR; eauto|exfalso; eapply NF; eauto].
+        specialize (Hown (n_ref m) eq_refl). rewrite M2 in Hown. rewrite K3 in W2. apply mem_in in Hown. congruence.
+      + assert (Hovr : i_ovr i = 0).
+        { apply instr_plain_mint; [|exact W1]. rewrite forallb_forall in Hplain. now apply Hplain. }
+        specialize (W2 Hovr).
+        destruct (build_facts g) as [es (F1 & _ & _ & _ & _ & _ & F7 & _)]. cbn zeta in F1, F7. fold s1 pl in F7.
+        assert (Hm : In (q, c) (r_final pl ++ r_retry pl)) by (apply in_or_app; right; exact Hc).
+        destruct (F7 _ _ Hm) as [er (E1 & E2 & E3 & E4 & E5)].
+        assert (Hin : In er (res_errs (build_schemas g))) by (rewrite F1; apply in_or_app; now right).
+        destruct (g_no_dup_error_spec g Hdup _ Hin) as [D1 D2]. rewrite E4 in D1, D2. destruct W2; congruence.
+    - intros c Hc. unfold pl, process_loop, run_loop in Hc.
+      destruct (loop_final_cat proc_try is_rec _ _ _ _ _ _ Hc) as [[]|Hf].
+      destruct (loop_final_src proc_try is_rec _ _ _ _ _ _ Hc) as [[]|[_ [s0 [s0' Ht]]]].
+      unfold is_rec in Hf. apply N.eqb_eq in Hf. subst c.
+      unfold proc_try in Ht. destruct (exec ctx_proc s0 (e_prog (q_entry q))) as [sx [cx|]] eqn:E; [|discriminate].
+      inversion Ht; subst cx. eapply exec_cat_plain; eauto.
+  Qed.
+
+  (* T lfp (process part): a queued model is reported as failed exactly when it has no derivation *)
+  Lemma process_failed_iff q : In q (s_queue s1) ->
+    ((exists c, In (q, c) (r_final pl ++ r_retry pl)) <-> ~ P g (q_entry q)).
+  Proof.
+    intro Hq. destruct (process_lfp g Hwf Hdir) as [_ ACC]. cbn zeta in ACC. fold s1 pl in ACC. split.
+    - intros [c Hc] [k Hk]. destruct (process_complete k q Hq Hk) as [NR NF].
+      apply in_app_or in Hc. destruct Hc as [Hc|Hc]; [eapply NF|eapply NR]; eauto.
+    - intro HnP. destruct (ACC q Hq) as [(HP & _)|[[c Hc]|[c Hc]]]; [contradiction| |]; exists c; apply in_or_app; [now right|now left].
+  Qed.
+End ProcessComplete.
